@@ -19,7 +19,15 @@ Finish == /\ ~done /\ (Quiet \/ Len(sched) >= GenDepth)
           /\ UNCHANGED vars /\ UNCHANGED sched
 
 GenInit == Init /\ sched = <<>> /\ done = FALSE
+(* GEN_ALT=1: prefer (3 in 4) a step of an actor other than the one that moved last, so that single underlying calls *)
+(* of different callers alternate (create / destroy landing between the Get and the Create / Update of a helper)   *)
+Alt == "GEN_ALT" \in DOMAIN IOEnv /\ IOEnv.GEN_ALT = "1"
+Others == IF sched = <<>> THEN Actors ELSE Actors \ {sched[Len(sched)].a}
 GenNext == IF Quiet \/ Len(sched) >= GenDepth THEN Finish
-           ELSE ~done /\ \E a \in Actors : GStep(a) \/ GDeliver(a)
+           ELSE /\ ~done
+                /\ \E coin \in {RandomElement(1..4)} :
+                     IF Alt /\ coin > 1 /\ (\E b \in Others : ENABLED Step(b))
+                     THEN \E b \in Others : GStep(b)
+                     ELSE \E a \in Actors : GStep(a) \/ GDeliver(a)
 GenSpec == GenInit /\ [][GenNext]_gvars
 =============================================================================
